@@ -151,6 +151,9 @@ def normalize_hostname(hostname, normalize_amp=True):
     hostname = hostname.strip().lower()
     hostname = CONTROL_CHARS_RE.sub("", hostname)
 
+    # NOTE: same order as in `normalize_url`: a decoded label can start with "amp-"
+    hostname = decode_punycode_hostname(hostname).lower()
+
     pattern = IRRELEVANT_SUBDOMAIN_AMP_RE if normalize_amp else IRRELEVANT_SUBDOMAIN_RE
 
     hostname = pattern.sub("", hostname)
@@ -158,7 +161,8 @@ def normalize_hostname(hostname, normalize_amp=True):
     if normalize_amp and hostname.startswith("amp-"):
         hostname = hostname[4:]
 
-    hostname = decode_punycode_hostname(hostname)
+        # NOTE: what follows can be a punycode label
+        hostname = decode_punycode_hostname(hostname)
 
     return hostname
 
